@@ -14,6 +14,9 @@ go build -tags verif -overlay "$W/overlay.json" -o "$W/vcheck" ./cmd/vcheck
 mkdir -p "$W/plain"
 "$ROOT/.bin/inst" -plain -repo "${VERIF_REPO:-/repo}" -out "$W/plain" -rt "$ROOT/engine/rt" > /dev/null
 go build -race -tags verif -overlay "$W/plain/overlay.json" -o "$W/vcheck.race" ./cmd/vcheck
+# known-answer self-test of the controlled scheduler (rendezvous, buffered channels, close, select, mutex, condition variable, access points)
+VERIF_WORK="$W" VERIF_ROOT="$ROOT" VERIF_OUT_DIR="$W/selfout" "$W/vcheck" SELF quick > "$W/self.log" 2>&1 || true
+if grep -q "HARNESS-ERROR" "$W/self.log" || ! grep -q "SELF quick: exit=0" "$W/self.log"; then cat "$W/self.log"; echo "scheduler self-test failed"; exit 1; fi
 # the reference models' own tests (round trip over the corpus, byte vectors)
 go test -count=1 ./wire/ > "$W/wire_test.log" 2>&1 || { cat "$W/wire_test.log"; echo "reference model self-test failed"; exit 1; }
 echo setup ok
